@@ -3,6 +3,7 @@ package sarama
 import (
 	"bytes"
 	"compress/gzip"
+	"encoding/binary"
 	"fmt"
 	"io/ioutil"
 	"sync"
@@ -42,6 +43,9 @@ func decompress(cc CompressionCodec, data []byte) ([]byte, error) {
 
 		return ioutil.ReadAll(reader)
 	case CompressionSnappy:
+		if err := checkSnappyDecodedLengths(data); err != nil {
+			return nil, err
+		}
 		return snappy.Decode(data)
 	case CompressionLZ4:
 		reader, ok := lz4ReaderPool.Get().(*lz4.Reader)
@@ -58,4 +62,41 @@ func decompress(cc CompressionCodec, data []byte) ([]byte, error) {
 	default:
 		return nil, PacketDecodingError{fmt.Sprintf("invalid compression specified (%d)", cc)}
 	}
+}
+
+// maxSnappyExpansion bounds what a snappy block can decode to: the densest element (a copy of 64 bytes
+// in 3 bytes) expands about 21 times.
+const maxSnappyExpansion = 32
+
+var xerialSnappyHeader = []byte{130, 83, 78, 65, 80, 80, 89, 0}
+
+// checkSnappyDecodedLengths rejects snappy data (plain, or in xerial framing) with a block whose header
+// announces more decoded bytes than its compressed bytes can produce. The snappy decoder allocates the
+// announced length before it reads the block, so without this check five bytes can request gigabytes.
+func checkSnappyDecodedLengths(data []byte) error {
+	checkBlock := func(block []byte) error {
+		decodedLen, n := binary.Uvarint(block)
+		if n > 0 && decodedLen > maxSnappyExpansion*uint64(len(block)) {
+			return PacketDecodingError{fmt.Sprintf("snappy block of %d bytes announces %d decoded bytes", len(block), decodedLen)}
+		}
+		return nil
+	}
+
+	if len(data) < len(xerialSnappyHeader) || !bytes.Equal(data[:len(xerialSnappyHeader)], xerialSnappyHeader) {
+		return checkBlock(data)
+	}
+
+	// xerial framing: 16 bytes of header, then blocks preceded by their 4-byte size
+	for pos := 16; pos+4 <= len(data); {
+		size := int(binary.BigEndian.Uint32(data[pos : pos+4]))
+		pos += 4
+		if size < 0 || size > len(data)-pos {
+			return nil // malformed framing, reported by the decoder
+		}
+		if err := checkBlock(data[pos : pos+size]); err != nil {
+			return err
+		}
+		pos += size
+	}
+	return nil
 }
